@@ -299,6 +299,59 @@ pub fn run(report: &Report, budget: &Budget) {
         }
         report.set(&format!("sweep_{np}_paths_{nb}_bands_{}_completed", if alphabet[1] == "/b" { "alphabet1" } else { "alphabet2" }), json!({"band_states": states.len(), "archives": n, "with_headless_and_lost_hunk_states": extra}));
     }
+    // Empty hunks: a hunk holding the empty list is legal (old versions wrote them) and is one more
+    // way "how entries are split into hunks". Exactly one band of the archive gets one empty hunk
+    // at every position of every layout; the other bands range over the basic states.
+    if complete {
+        let np = if thorough { 3 } else { 2 };
+        let nb = 3usize;
+        let basic = band_states(np, false);
+        let mut with_empty = Vec::new();
+        for st in &basic {
+            if let BandState::Present { complete, hunks, .. } = st {
+                for pos in 0..=hunks.len() {
+                    let mut h = hunks.clone();
+                    h.insert(pos, Vec::new());
+                    with_empty.push(BandState::Present { complete: *complete, hunks: h, tail_extra: 0 });
+                }
+            }
+        }
+        let others = basic.len().pow(nb as u32 - 1);
+        let n = nb * with_empty.len() * others;
+        archives_total += n as u64;
+        let paths = &PATHS[..np];
+        let done = par_for(n, budget, |w, idx| {
+            let which = idx % nb;
+            let special = &with_empty[(idx / nb) % with_empty.len()];
+            let mut k = idx / nb / with_empty.len();
+            let mut bands = Vec::new();
+            for b in 0..nb {
+                if b == which {
+                    bands.push(special.clone());
+                } else {
+                    bands.push(basic[k % basic.len()].clone());
+                    k /= basic.len();
+                }
+            }
+            let desc = describe(&bands, paths);
+            let case = json!({"kind": "c08", "paths": paths, "bands": bands.iter().map(state_json).collect::<Vec<_>>()});
+            let _g = announce(w, || format!("C08 {desc}\t{case}"));
+            let dir = scratches[w].fresh("a");
+            write_archive(&dir, paths, &bands);
+            let (vs, nl) = judge(&dir, &bands, &desc, false);
+            listings.fetch_add(nl, AO::Relaxed);
+            for v in &vs {
+                report.violation(v, &case);
+            }
+            let _ = std::fs::remove_dir_all(&dir);
+        });
+        archives_done += done as u64;
+        if done < n {
+            complete = false;
+        } else {
+            report.set("sweep_one_band_with_an_empty_hunk_completed", json!({"paths": np, "bands": nb, "states_with_empty_hunk": with_empty.len(), "archives": n}));
+        }
+    }
     for o in OUTCOMES.lock().unwrap().iter() {
         report.outcome(o.clone());
     }
